@@ -75,6 +75,9 @@ def run(ctx):
         sc = c09.make_scenario(ctx.rng, f"m{k}", s, p, nobj, n, exact=True)
         base = [ctx.rng.choice(["minimize", "maximize"]) for _ in range(nobj)]
         sc["confs"] = flip_confs(base)
+        if nobj == 2 and k % 2 == 0:
+            # two diverged objective values (one +inf, one -inf, in different objectives and trials)
+            sc["prog"]["infs"] = {"2": [0, ctx.rng.choice([1, -1])], "5": [1, ctx.rng.choice([1, -1])]}
         scenarios.append(sc)
     # discrete learning curves: integer values (pairwise distinct), where "equal to the interpolated percentile" happens
     coarse = [(s, p) for s in ("random", "tpe")
